@@ -92,7 +92,78 @@ def gen_pointer(lines):
     lines.append("def parseIndexGuard : UInt8 × UInt8 × Nat := (0x%02x, 0x%02x, %d)" % g)
 
 
-GENERATORS = [("Pointer", gen_pointer)]
+# ------------------------------------------------------------------ error.rs (C09–C13)
+def gen_error(lines):
+    t = src("error.rs")
+    m = re.search(r"pub\(crate\) enum ErrorCode \{(.*?)\n\}", t, re.S)
+    if not m: miss("error.enum", "enum ErrorCode not found"); return
+    variants = re.findall(r"^\s{4}([A-Z]\w*)(\([^)]*\))?,", m.group(1), re.M)
+    plain = [v for v, a in variants if not a]
+    lines.append("/-- `ErrorCode` variants without payload, in source order -/")
+    lines.append("inductive Code where")
+    for v in plain: lines.append("  | " + v)
+    lines.append("deriving DecidableEq, Repr, Inhabited")
+    lines.append("")
+    lines.append("inductive Cat where | io | syntax | data | eof deriving DecidableEq, Repr")
+    lines.append("")
+    body = fn_body(t, r"pub fn classify\(&self\) -> Category\s*\{")
+    arms = re.findall(r"((?:ErrorCode::\w+(?:\([^)]*\))?\s*\|?\s*)+)=>\s*Category::(\w+)", body or "")
+    cls = {}
+    for lhs, cat in arms:
+        for v in re.findall(r"ErrorCode::(\w+)", lhs): cls[v] = cat.lower()
+    lines.append("/-- `Error::classify`, arm by arm -/")
+    lines.append("def classify : Code → Cat")
+    for v in plain:
+        if v not in cls: miss("error.classify." + v, "no classify arm"); cls[v] = "syntax"
+        lines.append("  | .%s => .%s" % (v, cls[v]))
+    lines.append("")
+    disp = fn_body(t, r"impl Display for ErrorCode \{")
+    msgs = dict(re.findall(r'ErrorCode::(\w+)\s*=>\s*\{?\s*f\.write_str\(\s*"((?:[^"\\]|\\.)*)"\s*\)', disp or ""))
+    lines.append("/-- `Display for ErrorCode` messages (bytes) -/")
+    lines.append("def message : Code → List UInt8")
+    for v in plain:
+        if v not in msgs: miss("error.message." + v, "no Display arm"); msgs[v] = v
+        lines.append("  | .%s => %s" % (v, lean_bytes(rust_str_bytes(msgs[v]))))
+    lines.append("")
+    lines.append("def allCodes : List Code := [%s]" % ", ".join("." + v for v in plain))
+
+
+# ------------------------------------------------------------------ de.rs constants (C01 C10–C14)
+def gen_de(lines):
+    t = src("de.rs")
+    m = re.search(r"remaining_depth:\s*(\d+)", t)
+    if not m: miss("de.remaining_depth", "initial remaining_depth not found")
+    lines.append("/-- `remaining_depth` initial value in `Deserializer::new` -/")
+    lines.append("def remainingDepthInit : Nat := %s" % (m.group(1) if m else "0"))
+    body = fn_body(t, r"fn parse_whitespace\(&mut self\)[^{]*\{")
+    m = re.search(r"Some\(((?:b'(?:[^'\\]|\\.)'\s*\|?\s*)+)\)\s*=>\s*\{\s*self\.eat_char\(\);", body or "")
+    ws = [rust_str_bytes(x)[0] for x in re.findall(r"b'((?:[^'\\]|\\.))'", m.group(1))] if m else []
+    if not ws: miss("de.ws", "whitespace set of parse_whitespace not found")
+    lines.append("/-- bytes skipped by `parse_whitespace` -/")
+    lines.append("def wsBytes : List UInt8 := %s" % lean_bytes(ws))
+    body = fn_body(t, r"fn peek_end_of_value\(&mut self\)[^{]*\{")
+    m = re.search(r"Some\(((?:b'(?:[^'\\]|\\.)'\s*\|?\s*)+)\)\s*\|\s*None\s*=>\s*Ok", body or "")
+    dl = [rust_str_bytes(x)[0] for x in re.findall(r"b'((?:[^'\\]|\\.))'", m.group(1))] if m else []
+    if not dl: miss("de.delims", "delimiter set of peek_end_of_value not found")
+    lines.append("/-- bytes that may follow a bare scalar in a stream (`peek_end_of_value`) -/")
+    lines.append("def streamDelims : List UInt8 := %s" % lean_bytes(dl))
+    m = re.search(r"let self_delineated_value = match b \{\s*((?:b'(?:[^'\\]|\\.)'\s*\|?\s*)+)=>\s*true", t)
+    sd = [rust_str_bytes(x)[0] for x in re.findall(r"b'((?:[^'\\]|\\.))'", m.group(1))] if m else []
+    if not sd: miss("de.selfdelim", "self_delineated_value set not found")
+    lines.append("def selfDelineated : List UInt8 := %s" % lean_bytes(sd))
+    m = re.search(r"macro_rules! overflow \{\s*\(\$a:ident \* 10 \+ \$b:ident, \$c:expr\) => \{\s*match \$c \{\s*c => (.*?),\s*\}", t, re.S)
+    ov = re.sub(r"\s+", " ", m.group(1)) if m else ""
+    if ov != "$a >= c / 10 && ($a > c / 10 || $b > c % 10)":
+        miss("de.overflow", "overflow! macro body differs from the transcribed one: %r" % ov)
+    lines.append("/-- body of `overflow!($a * 10 + $b, $c)` as written (whitespace-normalised) -/")
+    lines.append('def overflowMacroBody : String := "%s"' % ov)
+    for lit, key in (("ull", "identNull"), ("rue", "identTrue"), ("alse", "identFalse")):
+        ok = re.search(r'parse_ident\(b"%s"\)' % lit, t)
+        if not ok: miss("de.ident." + key, "parse_ident(b\"%s\") not found" % lit)
+        lines.append("def %s : List UInt8 := %s" % (key, lean_bytes(lit.encode() if ok else b"")))
+
+
+GENERATORS = [("Pointer", gen_pointer), ("Error", gen_error), ("De", gen_de)]
 
 
 def main():
